@@ -741,7 +741,12 @@ def discharge(ctx, m, inv_ok, cr, b, bi, kind, term, T):
         if one and msg.startswith('Overflow(Add)'):
             o = other[1] if other[0] == 'load' else other
             if o[0] == 'field' or o[0] == 'call':
-                return True, 'D5: event counter += 1 (2^64 events)'
+                # the step's type is the counter's type: only a 64-bit (or wider) counter cannot be run over by counting events
+                step = c if c[0] == 'const' else a
+                wide = {'u64': 64, 'usize': 64, 'i64': 63, 'isize': 63, 'u128': 128, 'i128': 127}
+                if str(step[1]) in wide:
+                    return True, 'D5: event counter += 1 (2^%d events)' % wide[str(step[1])]
+                return False, 'event counter of type %s: += %s overflows after that many events (a long-lived sink gets there): panics with overflow checks, wraps without' % (step[1], step[2])
         # written + r : invariant I
         if m is not None and m.ok and b.path == m.write.path:
             def is_w(t):
